@@ -226,6 +226,7 @@ class GOb(Obligation):
     def native(self, env, seed):
         """Run the real function natively (NumPy backend) and compare with the spec.  -> (ok, detail)"""
         with _native_backend(self.tenalg):
+            G.reset_execution()
             rng = np.random.RandomState(seed)
             S = NumNS(env, rng)
             I = concretize_args(self.setup(S), env)
@@ -274,6 +275,7 @@ class GOb(Obligation):
             S = NumNS(env, rng)
             # evaluate symbolic `got` values on the inputs NumNS draws, compare with the native `got`
             with _native_backend(self.tenalg) as nb:
+                G.reset_execution()
                 I = concretize_args(self.setup(S), env)
                 I0 = copy.deepcopy(I)
                 inputs0 = copy.deepcopy(S.inputs)
@@ -321,10 +323,15 @@ class _native_backend:
             f = real.__func__ if hasattr(real, "__func__") else real
 
             def rec(*a, **k):
+                snap = G.caller_snapshot()
+                snap = {kk: ([np.array(x, copy=True) if isinstance(x, np.ndarray) else x for x in vv] if isinstance(vv, list) else
+                             (np.array(vv, copy=True) if isinstance(vv, np.ndarray) else vv)) for kk, vv in snap.items()}
+                args = [np.array(x, copy=True) if isinstance(x, np.ndarray) else x for x in a[:2]]
                 out = f(*a, **k)
                 i = counters.get(prefix, 0)
                 counters[prefix] = i + 1
-                self.recorded[f"{prefix}#{i}"] = pick(out)
+                self.recorded[f"{prefix}#{i}"] = np.array(pick(out), copy=True)
+                G.LA_LOG.append(dict(op=name, A=args[0], B=args[1] if len(args) > 1 else None, X=pick(out), at=snap))
                 return out
             NumpyBackend.register_method(name, rec)
         wrap("solve", "SOL", lambda o: o)
